@@ -231,6 +231,8 @@ class CommandManager(object):
         self.queue_lock_map = {}
         self.results = {}
         self.pause = set([])
+        # True while the solver is held in wait_for_cmd (guarded by plock)
+        self.paused = False
 
     @on_root_proc
     def add_interface(self, callable, block=True):
@@ -276,6 +278,9 @@ class CommandManager(object):
         with self.qlock:
             while self.pause:
                 with self.plock:
+                    # self.pause only changes under plock; a waiter must not
+                    # see a stale flag once every interface has continued
+                    self.paused = bool(self.pause)
                     self.plock.notify_all()
                 self.qlock.wait()
                 self.run_queued_commands()
@@ -314,8 +319,10 @@ class CommandManager(object):
         return True
 
     def wait(self):
+        ''' block until the solver is held at a control point '''
         with self.plock:
-            self.plock.wait()
+            while not self.paused:
+                self.plock.wait()
 
     def cont(self):
         ''' continue after a pause command '''
@@ -324,6 +331,8 @@ class CommandManager(object):
             return
         with self.plock:
             self.pause.remove(threading.current_thread().ident)
+            if not self.pause:
+                self.paused = False
             self.plock.notify()
             with self.qlock:
                 self.qlock.notify_all()
